@@ -160,6 +160,16 @@ CLAIMS = {
          "reused session never leaks a previous node's value. No-panic in general needs data invariants "
          "and is not decided."),
    design="4/C10"),
+ "C03": dict(
+   technique="guarded result summaries of the loop-free tail after the descent loop + CFG reachability of found answers + option-normalisation effects + session-field typestate",
+   text=("Decides structural necessary conditions of 'no false positives in Complete mode' for the exact-match descent (Get/GetID), for every trie "
+         "and query: Complete forces both prefix kinds to be stored; every branch of the descent that depends on a comparison with the node's stored "
+         "prefix tests a three-way result for (in)equality with 0 and has exactly one side from which no found answer is reachable (a mismatch cannot be "
+         "ignored); after the descent a found answer is given only if no leaf tails are stored at all, or the key ended exactly at a leaf without a "
+         "tail, or the stored tail compared equal with the rest of the key; stored prefix and tail are read only under their validity discriminators. "
+         "It does NOT decide that the comparisons are right for every byte string, nor anything about RangeGet/Search, ordering or neighbour "
+         "bookkeeping (rank values and key bytes at run time) — most of the property's behaviour is outside this claim."),
+   design="4/C03"),
  "C19": dict(
    technique="provenance typing of []uint64 values (bitmap words vs label path lists) through returns/tuples + map-range/sort discipline + session-field typestate",
    text=("Decides the clause whose violation made String() panic on tries with table-compressed nodes: no path list flows into a bitmap "
@@ -170,9 +180,6 @@ CLAIMS = {
 }
 
 NA = {
- "C03": ("Exactness of Complete mode for every (key set, query) pair is the joint behaviour of two data-dependent loops over "
-         "rank/select bitmaps and arbitrary key bytes; no structural clause exists that is both a genuine necessary condition "
-         "and not already decided under C01/C13 (see DESIGN.md section 4, C03). Static analysis cannot bound those runtime values."),
  "C09": ("Left/right neighbour bookkeeping is correct or not depending on rank values at run time; the structural facts it rests "
          "on (bitmap index kinds, one definition of a node's first/last child id) are decided under C01; nothing specific to C09 "
          "remains that a static rule could decide (DESIGN.md section 4, C09)."),
